@@ -13,7 +13,7 @@
              independent probe-inserting reference instrumenter (tools/impl/ref_instr.py) on generated programs. *)
 From Coq Require Import List ZArith NArith Bool Sorted.
 Import ListNotations.
-From PyccoloV Require model.RwFrag model.FragSem proofs.FragSemProofs.
+From PyccoloV Require model.RwFrag model.FragSem proofs.FragSemProofs model.FragFun proofs.FragFunProofs.
 From PyccoloV Require Import gen.PyAst gen.Ids gen.Events gen.EmitRet model.Val model.Rt model.Tree model.Erase model.Sites
   proofs.RtProofs proofs.DeliverProofs proofs.EraseSound.
 
@@ -94,3 +94,30 @@ Example C02_frag_stream_nonvacuous :
   [(E_before_binop, 4, None); (E_left_binop_arg, 5, Some (FragSem.VInt 2)); (E_right_binop_arg, 7, Some (FragSem.VInt 3));
    (E_after_binop, 4, Some (FragSem.VInt 5)); (E_after_assign_rhs, 4, Some (FragSem.VInt 5))].
 Proof. vm_compute. split; reflexivity. Qed.
+
+(* ... and with FUNCTIONS (model/FragFun.v): the subscribed events arrive exactly as the reference `fref_module` writes them out - per call
+   before_load_complex_symbol, the load of the callee, before_call, per argument before_argument / its events / after_argument, then the
+   body (before_function_body, its statements, after_function_execution ONCE PER INVOCATION HOWEVER IT ENDS: return, falling off the end,
+   exception), after_call, after_load_complex_symbol; per `return v` before_return, the events of v, after_return - for all primitive
+   operations, subscriptions, guard settings and policies, call depths, source modules and environments.  K-fun compares with real runs. *)
+Theorem C02_fun_stream : forall binop cmpop unop truth cval is_and c ge pol m d r sv,
+  forallb FragFunProofs.fsrc_t m = true ->
+  FragSem.filter_log c (FragFun.f_log (FragFun.frun binop cmpop unop truth cval is_and c pol d (FragFun.finstr_module c ge m) r sv)) =
+  FragSem.filter_log c (FragFun.fr_log (FragFun.fref_module binop cmpop unop truth cval is_and c pol ge d m r)).
+Proof. exact FragFunProofs.fun_stream. Qed.
+Print Assumptions C02_fun_stream.
+
+(* non-vacuity: `def f(p): return p // 0` then `a = f(1)` with the function and call events subscribed: the invocation raises, and still
+   after_function_execution closes it; after_call / after_return are not delivered *)
+Example C02_fun_stream_nonvacuous :
+  let m := [FragFun.FDef 1 100 [101] [FragFun.FReturn 4 (Some (FragFun.RExp (FragSem.XBin 5 (FragSem.XName 6 101) kFloorDiv (FragSem.XConst 9 (SInt 0%Z)))))];
+            FragFun.FAssign 10 [102] (FragFun.RCall 13 false false false (FragSem.XName 14 100) [FragSem.XConst 16 (SInt 1%Z)])]%N in
+  let c := {| RwFrag.sub := fun e => existsb (event_eqb e) [E_before_function_body; E_after_function_execution; E_before_call; E_after_call;
+                                                            E_before_return; E_after_return; E_after_argument] |} in
+  forallb FragFunProofs.fsrc_t m = true /\
+  let a := FragFun.frun FragSem.Py.binop FragSem.Py.cmpop FragSem.Py.unop FragSem.Py.truth FragSem.Py.cval FragSem.Py.is_and c (fun _ _ => true) 3
+             (FragFun.finstr_module c true m) (fun _ => None) FragSem.VNone in
+  FragFun.f_exc a = Some (FragFun.FX FragSem.EZeroDiv) /\
+  FragFun.f_log a = [(E_before_call, 13, Some (FragSem.VFun 1)); (E_after_argument, 16, Some (FragSem.VInt 1));
+                     (E_before_function_body, 1, Some (FragSem.VBool true)); (E_before_return, 5, None); (E_after_function_execution, 1, Some FragSem.VNone)]%N.
+Proof. vm_compute. repeat split; reflexivity. Qed.
